@@ -447,7 +447,20 @@ pub struct WireCase {
     /// None = `Content-Length: total` framing; Some(x) = chunked framing, with an extra
     /// (lying or not) Content-Length header placed before Transfer-Encoding when x is Some
     pub chunked: Option<Option<Cl>>,
+    /// how the chunked transfer coding is spelled in the request head (all of these mean "chunked" to an HTTP/1.1 server)
+    #[serde(default)]
+    pub te_spelling: u8,
 }
+
+const TE_SPELLINGS: &[&str] = &[
+    "Transfer-Encoding: chunked\r\n",
+    "Transfer-Encoding: Chunked\r\n",
+    "transfer-encoding: CHUNKED\r\n",
+    "Transfer-Encoding: gzip, chunked\r\n",
+    "Transfer-Encoding: gzip\r\nTransfer-Encoding: chunked\r\n",
+    "Transfer-Encoding:chunked\r\n",
+    "Transfer-Encoding: identity, chunked\r\n",
+];
 
 struct WirePlan {
     reqhead: String,
@@ -501,7 +514,7 @@ fn wire_plan(c: &WireCase, salt: u8) -> WirePlan {
                     }
                 }
             }
-            reqhead.push_str("Transfer-Encoding: chunked\r\n");
+            reqhead.push_str(TE_SPELLINGS[c.te_spelling as usize % TE_SPELLINGS.len()]);
         }
     }
     reqhead.push_str("\r\n");
@@ -749,8 +762,9 @@ pub fn wire_strategy() -> impl Strategy<Value = WireCase> {
             3 => Just(Some(None)),
             3 => cl_strategy().prop_map(|c| Some(Some(c))),
         ],
+        prop_oneof![2 => Just(0u8), 3 => 1u8..7],
     )
-        .prop_map(|((limit, total), cuts, chunked)| WireCase { limit, total, cuts, chunked })
+        .prop_map(|((limit, total), cuts, chunked, te_spelling)| WireCase { limit, total, cuts, chunked, te_spelling })
 }
 
 /// A chunked request with 2-6 chunks and a small limit (bodies around and above it).
@@ -760,11 +774,12 @@ fn wire_pair_member() -> impl Strategy<Value = WireCase> {
         total: [limit.saturating_sub(3), limit, limit + limit / 2 + 1][k as usize],
         cuts,
         chunked: Some(None),
+        te_spelling: (k as u8 + limit as u8) % 7,
     })
 }
 
 pub fn main(mut chk: Check) -> ! {
-    chk.ev.rule = "in-process (hook H1): limit N from {0,1,2,7,64,1000,8192} or random, body length around {0,N-1,N,N+1,N+2,2N,3N+5} or random, split into 1-12 data frames plus empty frames/trailers/an injected stream error, Content-Length in {absent, truthful, smaller, larger<=N, larger>N, 2^64, 10 kinds of garbage}, optionally followed by JsonBody/UrlEncodedBody extraction. loopback: the real BufferedBody::extract behind pavex::server::Server; raw TCP client with Content-Length framing or chunked framing (chosen chunk sizes), optionally with an extra (lying) Content-Length header before Transfer-Encoding. Oracle: Ok(b) => len(b)<=N and b == bytes sent; size-limit error => sent>N or a plausible reading of the header >N; within-limit bodies with harmless headers must be accepted; no other error unless the stream failed. non-trivial = length in {N, N+1}, or >=3 frames of an over-limit body, or a Content-Length that is not absent/truthful; distinct = distinct serialised case".into();
+    chk.ev.rule = "in-process (hook H1): limit N from {0,1,2,7,64,1000,8192} or random, body length around {0,N-1,N,N+1,N+2,2N,3N+5} or random, split into 1-12 data frames plus empty frames/trailers/an injected stream error, Content-Length in {absent, truthful, smaller, larger<=N, larger>N, 2^64, 10 kinds of garbage}, optionally followed by JsonBody/UrlEncodedBody extraction. loopback: the real BufferedBody::extract behind pavex::server::Server; raw TCP client with Content-Length framing or chunked framing (chosen chunk sizes), optionally with an extra (lying) Content-Length header before Transfer-Encoding, the chunked coding spelled in 7 ways (letter case, `gzip, chunked`, two header lines, no space). Oracle: Ok(b) => len(b)<=N and b == bytes sent; size-limit error => sent>N or a plausible reading of the header >N; within-limit bodies with harmless headers must be accepted; no other error unless the stream failed. non-trivial = length in {N, N+1}, or >=3 frames of an over-limit body, or a Content-Length that is not absent/truthful; distinct = distinct serialised case".into();
     chk.ev.assume("for malformed Content-Length values every numeric reading a lenient parser could make is considered 'declared' (rejecting on it is allowed, never required)");
     chk.ev.assume("loopback: when hyper itself rejects a request (conflicting framing headers) nothing reaches the extractor and the case is only classified");
     if let Some(p) = chk.settings.replay.clone() {
